@@ -61,7 +61,8 @@ language_map = {
     'chinese': 'zh-CN',
 }
 
-from yalafi.defs import InitModule, Macro, LanguageToken, Environ, MacroToken
+from yalafi.defs import (InitModule, Macro, LanguageToken, Environ, MacroToken,
+                            ActionToken)
 
 require_packages = []
 
@@ -103,8 +104,11 @@ def translate_lang(lang):
 
 def h_foreignlanguage(parser, buf, mac, args, delim, pos):
     lang = translate_lang(parser.get_text_expanded(args[1]).strip())
+    # NB: the ActionToken marks the end of the macro, like for other macros:
+    #     a line only containing the closing brace is no paragraph break
     return ([LanguageToken(pos, lang=lang, brk=foreignlang_break)] + args[2]
-                        + [LanguageToken(args[2][-1].pos, back=True)])
+                        + [LanguageToken(args[2][-1].pos, back=True),
+                            ActionToken(args[2][-1].pos)])
 
 def h_selectlanguage(parser, buf, mac, args, delim, pos):
     lang = translate_lang(parser.get_text_expanded(args[0]).strip())
